@@ -46,8 +46,16 @@ class Gen:
             # the same strategies built without a sequencing-index parser: the only configuration that accepts headers
             # without an index (10-/7-field Illumina, empty index)
             self.dmx0 = DemultiplexingStrategyLoader(barcodeParser=self.bp, indexParser=None, indexFileAlias=None)
+            # and with Hamming expansion 1 on both parsers: raw barcode / raw index differ from the corrected ones
+            self.bp1 = BarcodeParser(os.path.join(base, 'barcodes'), hammingDistanceExpansion=1, lazyLoad='*')
+            self.ip1 = BarcodeParser(os.path.join(base, 'indices'), hammingDistanceExpansion=1, lazyLoad='*')
+            self.dmx1 = DemultiplexingStrategyLoader(barcodeParser=self.bp1, indexParser=self.ip1, indexFileAlias=self.index_alias)
         self.strategies = list(self.dmx.demultiplexingStrategies)
         self.strategies0 = {st.shortName: st for st in self.dmx0.demultiplexingStrategies}
+        self.strategies1 = {st.shortName: st for st in self.dmx1.demultiplexingStrategies}
+        self.zero = {}          # (parser id, alias) -> synthetic barcode registered with CELL INDEX 0
+        from singlecellmultiomics.universalBamTagger.universalBamTagger import QueryNameFlagger
+        self.flagger = QueryNameFlagger()       # one tagger object for the whole run, as in the real tagger
         idx = list(self.ip[self.index_alias].keys())
         self.single_idx = sorted(i for i in idx if '+' not in i)
         self.dual_idx = sorted(i for i in idx if '+' in i)
@@ -66,7 +74,17 @@ class Gen:
             wl = lay.barcodeFileParser[lay.barcodeFileAlias]
         except Exception:
             return None
-        return sorted(wl.keys()) if wl else None
+        if not wl:
+            return None
+        key = (id(lay.barcodeFileParser), lay.barcodeFileAlias)
+        if key not in self.zero:        # deterministic (also on --replay): a whitelist member with the falsy cell index 0
+            n = len(next(iter(wl)))
+            bc0 = next(c * n for c in 'GCA' if c * n not in wl)
+            lay.barcodeFileParser.addBarcode(lay.barcodeFileAlias, bc0, 0)
+            if lay.barcodeFileParser.hammingDistanceExpansion:
+                lay.barcodeFileParser.expand(lay.barcodeFileParser.hammingDistanceExpansion, alias=lay.barcodeFileAlias)
+            self.zero[key] = bc0
+        return sorted(k for k in wl.keys() if k != self.zero[key])
 
     def place(self, lay, seqs, barcode):
         """Write a whitelist barcode into the positions the layout reads it from; returns the UMI slices [(mate, slice)]."""
@@ -109,11 +127,11 @@ class Gen:
         idx = {'single': r.choice(self.single_idx), 'dual': r.choice(self.dual_idx) if self.dual_idx else r.choice(self.single_idx),
                'int': str(r.randint(1, 96)), 'none': ''}[idx_kind]
         return {'is': r.choice(['NS500414', 'M00123', 'HWI-ST1234', 'A00_12-x']) if r.random() < 0.7 else tok(r.randint(1, 10)),
-                'rn': str(r.randint(1, 999)), 'fc': r.choice(['H7YVNBGXC', '000000000-ABCDE', tok(9)]),
-                'la': str(r.randint(1, 8)), 'ti': str(r.randint(1101, 2678)), 'cx': str(r.randint(1, 30000)),
-                'cy': str(r.randint(1, 30000)), 'fi': r.choice('NY'), 'cn': str(r.choice([0, 0, 2, 18])), 'idx': idx}
+                'rn': str(r.choice([0, r.randint(1, 999)])), 'fc': r.choice(['H7YVNBGXC', '000000000-ABCDE', tok(9)]),
+                'la': str(r.randint(1, 8)), 'ti': str(r.randint(1101, 2678)), 'cx': str(r.choice([0, r.randint(1, 30000)])),
+                'cy': str(r.choice([0, 1, r.randint(1, 30000)])), 'fi': r.choice('NY'), 'cn': str(r.choice([0, 0, 2, 18])), 'idx': idx}
 
-    def build(self, st, quals, hv, f, single_end=False, L=76):
+    def build(self, st, quals, hv, f, single_end=False, L=76, cell='any'):
         """Try to build a pair this strategy accepts. quals: function (mate, pos) -> phred character."""
         r = self.rng
         for lay in self.layouts(st) or [None]:
@@ -123,7 +141,13 @@ class Gen:
             seqs = [[r.choice('ACG') for _ in range(L)] for _ in range(2)]      # no T: no poly-T / motif accidents
             umi_slices = []
             if lay is not None:
-                umi_slices = self.place(lay, seqs, list(r.choice(wl)))
+                bc = r.choice(wl)
+                if cell == 'zero':          # the whitelist member with cell index 0
+                    bc = self.zero[(id(lay.barcodeFileParser), lay.barcodeFileAlias)]
+                elif cell == 'mismatch':    # one sequencing error in the barcode (corrected when the parser expands)
+                    p = r.randrange(len(bc))
+                    bc = bc[:p] + r.choice([c for c in 'ACGT' if c != bc[p]]) + bc[p + 1:]
+                umi_slices = self.place(lay, seqs, list(bc))
             if type(st).__name__ == 'SCCHIC_384w_c8_u3_pdt':
                 seqs[0][40:49] = list('AGACTCTTT')
             n = 1 if single_end else 2
@@ -160,7 +184,7 @@ def roundtrip(g, st, recs, lib, ev):
         e['dt'] = [[k, codes(v)] for k, v in tr.tags.items()]
         e['dt_types'] = sorted(set(type(v).__name__ for v in tr.tags.values()))
         try:
-            fq = str(tr)
+            fq = (str(tr), tr.asFastq(), repr(tr))[base['tid'] % 3]      # the three ways the writer serialises a record
             e['header'] = codes(fq.split('\n')[0][1:])
         except ValueError:
             e['refused'] = True
@@ -176,6 +200,10 @@ def roundtrip(g, st, recs, lib, ev):
                 seg.reference_id = 0
                 seg.reference_start = 100
                 seg.cigarstring = '4M'
+                if base['tid'] % 2:         # tags an aligner leaves on the record
+                    seg.set_tag('NM', 0)
+                    seg.set_tag('AS', 4)
+                    seg.set_tag('MD', '4')
                 e['stored'] = True
             except ValueError:
                 seg = None
@@ -190,7 +218,7 @@ def roundtrip(g, st, recs, lib, ev):
         for e in out:
             e['shape'] = shape
         try:
-            fl = QueryNameFlagger()
+            fl = g.flagger
             if shape == 'split':
                 fl.digest([segs[0], None])
                 fl.digest([None, segs[1]])
@@ -229,7 +257,10 @@ def replay(out, ev):
                 e['raised'] = type(ex).__name__
             f.write(json.dumps(e) + '\n')
             return
-        st = g.strategies0[ev['strategy']] if not ev.get('ixp', True) else [s for s in g.strategies if s.shortName == ev['strategy']][0]
+        st = (g.strategies1[ev['strategy']] if ev.get('loader') == 'k1' else g.strategies0[ev['strategy']] if not ev.get('ixp', True)
+              else [s for s in g.strategies if s.shortName == ev['strategy']][0])
+        for lay in g.layouts(st):
+            g.whitelist(lay)        # registers the cell-index-0 member exactly as the recording run did
         recs = [g.FastqRecord(h, s, '+', q) for h, s, q in ev['reads']]
         base = dict(ev)
         base.update(raised='', refused=False, stored=False, digested=False, digest_raised='', dt=[], dt_types=[], header=[], bt=[],
@@ -337,6 +368,39 @@ def main():
         recs, umi, umiq = g.build(st, uniform('F'), 'illumina11', fld, single_end(st))
         if recs is not None:
             for e in roundtrip(g, st, recs, '', blank(st, 'illumina11', fld, '', 'emptylibrary', umi, umiq)):
+                e['uq'] = ord('F')
+                emit(e)
+
+    # (2c) falsy-but-valid values at both ends of the codec: the whitelist member whose CELL INDEX is 0 (sample = library_0)
+    for i, st in enumerate(g.strategies):
+        if st.shortName not in reachable or type(st).__name__ == 'SCCHIC_384w_c8_u3_cs2' or (tier == 'quick' and i % 2):
+            continue        # (TCHIC maps the cell index through the celseq2 list, which has no index 0)
+        fld = g.fields('single')
+        recs, umi, umiq = g.build(st, uniform('!'), 'illumina11', fld, single_end(st), cell='zero')
+        if recs is None:
+            continue
+        lib = ''.join(rng.choice(SAFE) for _ in range(rng.randint(1, 12)))
+        for e in roundtrip(g, st, recs, lib, blank(st, 'illumina11', fld, lib, 'cellindex0', umi, umiq)):
+            e['uq'] = ord('!')
+            emit(e)
+
+    # (2d) Hamming-corrected barcode and sequencing index (both parsers with expansion 1): raw and corrected values differ
+    #      (bc != BC, aa != aA, ah = 1) and both have to come back
+    for i, st in enumerate(g.strategies):
+        if st.shortName not in reachable or (tier == 'quick' and i % 2 == 0):
+            continue
+        st1 = g.strategies1[st.shortName]
+        for rep in range(1 if tier == 'quick' else 4):
+            fld = g.fields('single')
+            p = rng.randrange(len(fld['idx']))
+            fld['idx'] = fld['idx'][:p] + rng.choice([c for c in 'ACGT' if c != fld['idx'][p]]) + fld['idx'][p + 1:]
+            recs, umi, umiq = g.build(st1, uniform('F'), 'illumina11', fld, single_end(st1), cell='mismatch')
+            if recs is None:
+                continue
+            lib = ''.join(rng.choice(SAFE) for _ in range(rng.randint(1, 12)))
+            ev0 = blank(st1, 'illumina11', fld, lib, 'corrected', umi, umiq)
+            ev0['loader'] = 'k1'
+            for e in roundtrip(g, st1, recs, lib, ev0):
                 e['uq'] = ord('F')
                 emit(e)
 
